@@ -124,7 +124,7 @@ def crate_uses_stubbing(crate):
     return crate in _stub_crates
 
 
-CHECK_RE = re.compile(r"^Check (\d+): (\S+)\s*$")
+CHECK_RE = re.compile(r"^Check (\d+): (\S.*?)\s*$")
 
 
 def parse_output(text):
